@@ -41,3 +41,74 @@ for _f in sorted(glob.glob(os.path.join(os.path.dirname(__file__), "fam_*.py")))
     for _p, (_fn, _lvl) in getattr(_m, "PROPS", {}).items():
         CHECKS[_p] = _fn
         LEVEL[_p] = _lvl
+
+
+def check_c03(out, tier, seed):
+    import random
+    from . import core as c
+    rnd = random.Random(seed)
+    plan = [("perm1", 3, 4, "none", None), ("perm2", 3, 4, "none", None)] if tier == "quick" else \
+           [("perm1", 3, 6, "none", 60000), ("perm2", 3, 5, "none", None),
+            ("perm1", 3, 5, "gfa1", 30000), ("perm2", 3, 4, "gfa2", None)]
+    jobs = []
+    sp_states = sp_trans = 0
+    ndocs = 0
+    for cat, lo, hi, ver, cap in plan:
+        seqs, ops, st = c.mc_arrival(cat, lo, hi, "arr-%s-%s" % (cat, ver), cfgversion=ver)
+        sp_trans += st[0]
+        sp_states += st[1]
+        if cap and len(seqs) > cap:     # keep whole documents: sample documents, not orders
+            docs = sorted({tuple(sorted(k)) for k in seqs})
+            rnd.shuffle(docs)
+            keep, n = set(), 0
+            for d in docs:
+                import math
+                n += math.factorial(len(d))
+                keep.add(d)
+                if n >= cap:
+                    break
+            seqs = {k: v for k, v in seqs.items() if tuple(sorted(k)) in keep}
+        ndocs += len({tuple(sorted(k)) for k in seqs})
+        jobs += c.perm_jobs(seqs, ops, cat, cfgversion=ver)
+    if tier == "quick":    # a few larger documents, every order
+        seqs, ops, st = c.mc_arrival("perm1", 5, 5, "arr-perm1-5", cfgversion="none")
+        sp_trans += st[0]
+        sp_states += st[1]
+        docs = sorted({tuple(sorted(k)) for k in seqs})
+        rnd.shuffle(docs)
+        keep = set(docs[:12])
+        seqs = {k: v for k, v in seqs.items() if tuple(sorted(k)) in keep}
+        ndocs += len(keep)
+        jobs += c.perm_jobs(seqs, ops, "perm1", cfgversion="none", tag="5")
+    traces = c.replay_all(jobs)
+    r = c.validate(traces, "val-C03")
+    prej, ngroups = c.validate_perm_groups(traces, jobs, "perm-C03")
+    by_id = r["by_id"]
+    for tid, ev, clauses, phase in r["rejects"] + prej:
+        t = by_id.get(tid)
+        props = c.attribute(clauses, "perm") if clauses != ["order"] else {"C03"}
+        if "C03" in props:
+            out.violations.append(dict(family="core", clauses=clauses, event=ev, phase=phase, trace=tid,
+                                       cfg=t["cfg"], ops=t["src"][:ev] if ev else t["src"],
+                                       what="clauses %s at delivery %d" % (",".join(clauses), ev)))
+        for p in props - {"C03"}:
+            out.others[p] = out.others.get(p, 0) + 1
+    out.add_cov(states=sp_states + r["states"], transitions=sp_trans + r["states"],
+                spec_states=sp_states, spec_transitions=sp_trans,
+                traces_validated_against_impl=len(traces), events_validated=r["states"],
+                documents=ndocs, strict_documents_compared_by_digest=ngroups,
+                evaluations=len(traces), distinct_nontrivial=len(traces),
+                exhaustive=False,
+                rule="every arrival order of every valid document (subset of the perm1/perm2 catalogues "
+                     "within the size bounds, validity decided by MC_Arrival!ValidDoc) delivered with add_line, "
+                     "observed after every delivery; each order is a distinct non-trivial case (>= 3 lines, "
+                     ">= 1 referencing record is guaranteed only by the catalogue mix)")
+    for t in traces[:3]:
+        out.samples.append({"trace": t["id"], "cfg": t["cfg"], "calls": [[o["k"], o["text"], e["res"]]
+                                                                     for o, e in zip(t["src"], t["ev"])]})
+    out.assumptions += ["TLC; spec/Gfa.tla, MC_Arrival.tla, TraceGfa.tla, TracePerm.tla", "harness/project.py",
+                        "permutations are compared modulo the relative order of the lines of one multi-line group (C17)"]
+
+
+CHECKS["C03"] = check_c03
+LEVEL["C03"] = "model_checking"
